@@ -3,7 +3,7 @@ import json, os, random, re, shutil, subprocess, tempfile
 from tools import vlib, t3
 
 MODULE = "PropC20"
-THEOREMS = ["C20_flatten", "C20_flatten_once", "C20_report_complete", "C20_report_once", "C20_report_sorted", "C20_ties_refuted_before_repair", "C20_bash_reproduces", "C20_bash_reproduces_run", "C20_bash_example", "C20_example"]
+THEOREMS = ["C20_flatten", "C20_flatten_once", "C20_report_complete", "C20_report_once", "C20_report_sorted", "C20_ties_refuted_before_repair", "C20_bash_reproduces", "C20_bash_reproduces_run", "C20_bash_example", "C20_example", "C20_cone_conforms"]
 CLI = os.path.join(vlib.BIN, "scipipe_cli")
 
 
